@@ -1354,14 +1354,14 @@ class ThirdCoreHexToFullCoreChanger(GeometryChanger):
                     f"Modifying parameters in central assembly {a} to convert from 1/3 to full core"
                 )
 
-                if not self.listOfVolIntegratedParamsToScale:
-                    # populate the list with all parameters that are VOLUME_INTEGRATED
-                    (
-                        self.listOfVolIntegratedParamsToScale,
-                        _,
-                    ) = _generateListOfParamsToScale(
-                        self._sourceReactor.core, paramsToScaleSubset=[]
-                    )
+                # Every VOLUME_INTEGRATED parameter of the central blocks holds a 1/3 value in
+                # the 1/3 core model. Do not rely on the (global) assignment flags or on a list
+                # cached by a previous conversion: both miss parameters.
+                self.listOfVolIntegratedParamsToScale = list(
+                    a[0]
+                    .p.paramDefs.atLocation(ParamLocation.VOLUME_INTEGRATED)
+                    .names
+                )
 
                 for b in a:
                     self._scaleBlockVolIntegratedParams(b, "up")
